@@ -18,6 +18,8 @@
 (*             constructor; flags                                            *)
 (*   "strm"    String.prototype.match / replace / search / split with a      *)
 (*             RegExp argument (lastIndex before = 0 or 1)                   *)
+(*   "bytes"   exec of a global expression from every lastIndex on subjects   *)
+(*             with 2- and 3-byte characters (byte vs code unit offsets)     *)
 (*   "xlate"   every pattern text of all families with its classification    *)
 (*             only (the harness feeds parser.TransformRegExp + regexp.      *)
 (*             Compile directly)                                             *)
@@ -44,7 +46,7 @@ Words(k) == IF k = 0 THEN {<<>>} ELSE {w \o Alpha[i] : w \in Words(k - 1), i \in
 (* extra subjects for the character-set questions: CR, LS, VT, NBSP, BOM, e-acute, KELVIN SIGN, LONG S, digits *)
 Special1 == {<<13>>, <<8232>>, <<97, 13, 98>>, <<97, 8233>>, <<11>>, <<160>>, <<65279>>, <<233>>, <<201>>, <<8490>>, <<383>>, <<107>>, <<115>>,
              <<49>>, <<95>>, <<97, 233, 97>>, <<233, 97>>, <<32>>}
-Special == Special1 \cup {<<9>>, <<12>>, <<0>>, <<8>>, <<45>>, <<93>>, <<92>>, <<97, 45, 98>>, <<97>>, <<98>>, <<10>>, <<65>>, <<97, 10>>, <<>>}
+Special == Special1 \cup {<<9>>, <<12>>, <<0>>, <<8>>, <<45>>, <<93>>, <<92>>, <<97, 45, 98>>, <<97>>, <<98>>, <<10>>, <<65>>, <<97, 10>>, <<>>, <<47>>, <<97, 47, 98>>}
 SubjSeq == SetToSeq(UNION {Words(k) : k \in 0..MaxLen})
 Special1Seq == SetToSeq(Special1)
 SpecialSeq == SetToSeq(Special)
@@ -103,7 +105,10 @@ Js(c) ==
             ELSE <<h \o "(function(){ return new RegExp(", Lit(StrV(c.src)), ",", Lit(StrV(c.flags)), "); })">>)
       [] c.fam = "strm" ->
            <<"var r = ">> \o Ctor(c.form, c.src, c.flags) \o <<", L = [], s = ", Lit(StrV(c.s)), "; r.lastIndex = ", Lit(c.li), "; var x = ">>
-           \o (CASE c.m = "match" -> <<"s.match(r)">>
+           \o (CASE c.m = "ctor" -> <<"'constructed'">>
+                 [] c.m = "exec" -> <<"r.exec(s)">>
+                 [] c.m = "test" -> <<"r.test(s)">>
+                 [] c.m = "match" -> <<"s.match(r)">>
                  [] c.m = "search" -> <<"s.search(r)">>
                  [] c.m = "split" -> IF c.lim.t = "undef" /\ c.omit THEN <<"s.split(r)">> ELSE <<"s.split(r, ", Lit(c.lim), ")">>
                  [] c.m = "replace" -> <<"[s.replace(r, ", Lit(StrV(c.rep)), "), L]">>
@@ -128,14 +133,18 @@ Expect(d, c) ==
                    ELSE IF k.thr = "TypeError" THEN <<84, 121, 112, 101, 69, 114, 114, 111, 114>>
                    ELSE <<69, 114, 114, 111, 114>>))                                             \* "Error": any error class
       [] c.fam = "strm" ->
-           LET X0 == [S!RxNew(c.src, c.flags) EXCEPT !.li = c.li]
-               x == CASE c.m = "match" -> IF d THEN L!RxStrMatch(X0, c.s) ELSE S!RxStrMatch(X0, c.s)
+           LET k == IF d THEN L!RxConstructF(c.src, c.flags, c.form) ELSE S!RxConstructF(c.src, c.flags, c.form)
+               X0 == [k.X EXCEPT !.li = c.li]
+               x == CASE c.m = "ctor" -> [R |-> X0, v |-> StrV(<<99, 111, 110, 115, 116, 114, 117, 99, 116, 101, 100>>)]
+                      [] c.m = "exec" -> (LET y == IF d THEN L!RxExec(X0, c.s) ELSE S!RxExec(X0, c.s) IN [R |-> y.R, v |-> y.v])
+                      [] c.m = "test" -> IF d THEN L!RxTest(X0, c.s) ELSE S!RxTest(X0, c.s)
+                      [] c.m = "match" -> IF d THEN L!RxStrMatch(X0, c.s) ELSE S!RxStrMatch(X0, c.s)
                       [] c.m = "search" -> IF d THEN L!RxStrSearch(X0, c.s) ELSE S!RxStrSearch(X0, c.s)
                       [] c.m = "split" -> IF d THEN L!RxStrSplit(X0, c.s, c.lim) ELSE S!RxStrSplit(X0, c.s, c.lim)
                       [] c.m = "replace" -> IF d THEN L!RxStrReplace(X0, c.s, [k |-> "str", s |-> c.rep])
                                             ELSE S!RxStrReplace(X0, c.s, [k |-> "str", s |-> c.rep])
                       [] c.m = "replacefn" -> IF d THEN L!RxStrReplace(X0, c.s, [k |-> "fn"]) ELSE S!RxStrReplace(X0, c.s, [k |-> "fn"])
-           IN  Ok(Pair(x.v, x.R.li))
+           IN  IF k.thr # "" THEN [thr |-> k.thr, v |-> Undef, log |-> <<>>] ELSE Ok(Pair(x.v, x.R.li))
 
 (* classification of a pattern text for the direct translation pass *)
 Cls(d, src) ==
@@ -160,6 +169,8 @@ StrmOps(nc) ==                                   \* the method variants for a pa
     \cup {[m |-> "split", lim |-> Limits[i], omit |-> FALSE] : i \in 1..Len(Limits)} \cup {[m |-> "split", lim |-> Undef, omit |-> TRUE]}
     \cup {[m |-> "replace", rep |-> X_Repls[i]] : i \in {j \in 1..Len(X_Repls) : S!RxReplDefined(X_Repls[j], nc)}}
 
+BytePats == <<<<97>>, <<46>>, <<233>>, <<91, 94, 97, 93>>, <<92, 87>>, <<40, 46, 41, 40, 97, 41, 63>>, <<36>>, <<46, 46>>, <<92, 98>>, <<>>, <<92, 119, 42>>>>
+ByteSubj == <<<<233, 97>>, <<97, 233, 97>>, <<20013, 97>>, <<233>>, <<97, 20013, 233>>, <<97, 97>>>>
 Block(seq, b) == Pick(NPat, {i \in 1..Len(seq) : i % K = b - 1})
 Init == blk \in Fams \X (1..K) /\ cs = None
 Next ==
@@ -193,6 +204,11 @@ Next ==
                /\ \E si \in Pick(NStrm, 1..Len(StrmSubj)), o \in StrmOps(P.nc), li \in {IntV(0), IntV(1)} :
                      cs' = o @@ [fam |-> "strm", form |-> IF PatSeq(fam)[j] = <<>> \/ si % 2 = 0 THEN "ctor" ELSE "lit",
                                  src |-> PatSeq(fam)[j], flags |-> fl, s |-> StrmSubj[si], li |-> li]
+       ELSE IF fam = "bytes"
+       THEN /\ b <= Len(BytePats)
+            /\ \E si \in 1..Len(ByteSubj), li \in 0..8 :
+                  /\ li <= S!Utf8Len(ByteSubj[si]) + 1
+                  /\ cs' = [fam |-> "strm", m |-> "exec", form |-> "ctor", src |-> BytePats[b], flags |-> <<103>>, s |-> ByteSubj[si], li |-> IntV(li)]
        ELSE \* "xlate"
             \E j \in {i \in 1..Len(SynSeq(fam)) : i % K = b - 1} : cs' = [fam |-> "xlate", src |-> SynSeq(fam)[j]]
 
